@@ -45,9 +45,17 @@ fn rename_states() -> Vec<State> {
                     holder_mut(&mut s).seq = Some(Seq::of(vec![Particle::Ref(ElemRef { target: QName::new(NS_A, name), min: 1, max: Max::N(1) })]));
                 }
                 "element" => holder_mut(&mut s).seq = Some(Seq::of(vec![el(name, TypeRef::b("string")), el("Other", TypeRef::b("int"))])),
-                _ => holder_mut(&mut s).attrs.push(Attr { name: name.clone(), ty: TypeRef::b("string"), required: true }),
+                _ => holder_mut(&mut s).attrs.push(Attr { name: name.clone(), ty: TypeRef::b("string"), required: true, value_constraint: None }),
             }
             out.push(State { label: format!("rename {position} to {style} `{name}`"), depth: 1, set: s });
+        }
+    }
+    // WSDL naming positions (operation, message part, service)
+    for (style, name) in &names {
+        for position in ["operation", "message-part", "service"] {
+            if let Some(set) = super::c14::state_for_name(name, position) {
+                out.push(State { label: format!("rename {position} to {style} `{name}`"), depth: 1, set });
+            }
         }
     }
     out
@@ -86,6 +94,20 @@ fn multi_file_states() -> Vec<State> {
     out.push(mk(3, &[(0, 1), (1, 2), (2, 0)], "cycle-3"));
     out.push(mk(3, &[(0, 1), (0, 2), (1, 2), (2, 1)], "mutual-3"));
     out.push(mk(2, &[(0, 1), (0, 0)], "self-import"));
+    // two imported namespaces with ONE abbreviation whose prefixes are declared on the referring
+    // components only (never on the root element)
+    {
+        let ns = ["http://zv.example/umbrella", "http://zv.example/billing/v1/types", "http://zv.example/shipping/v1/types"];
+        let mut files = vec![];
+        let mut start = XsdFile { name: "m0.xsd".into(), tns: ns[0].into(), prefixes: vec![("u".into(), ns[0].into())], default_ns: None, imports: vec![], comps: vec![] };
+        for i in 1..3 {
+            start.imports.push(Import { ns: ns[i].into(), loc: Some(format!("m{i}.xsd")) });
+            start.comps.push(Comp::Complex(ComplexType { name: format!("Uses{i}"), xmlns: vec![(format!("p{i}"), ns[i].into())], seq: Some(Seq::of(vec![el("It", TypeRef::n(ns[i], &format!("Type{i}")))])), ..Default::default() }));
+            files.push(XsdFile { name: format!("m{i}.xsd"), tns: ns[i].into(), prefixes: vec![("own".into(), ns[i].into())], default_ns: None, imports: vec![], comps: vec![complex(&format!("Type{i}"), vec![el("V", TypeRef::b("string"))])] });
+        }
+        files.insert(0, start);
+        out.push(State { label: "files colliding-abbreviations-declared-on-components".into(), depth: 1, set: SchemaSet { files, wsdl: None, start: "m0.xsd".into() } });
+    }
     out
 }
 
@@ -107,6 +129,7 @@ pub fn states(tier: &str) -> Vec<State> {
         }
     }
     out.extend(c02::component_states());
+    out.extend(c02::name_collision_states());
     out.extend(rename_states());
     out.extend(multi_file_states());
     out.extend(wsdlgen::wsdl_states(tier == "thorough"));
@@ -167,6 +190,7 @@ pub fn check(tier: &str) -> i32 {
                             .ctx("where", &owner)
                             .ctx("message", &generic_msg)
                             .ctx("production", production_kind(&st.label))
+                            .ctx("name.collision", if st.label.contains("name-collision") { "element-and-type-share-a-name" } else { "none" })
                             .exp("rustc accepts the emitted file")
                             .act(format!("{} | line {}: {}", d.message, d.line, d.snippet))
                             .depth(st.depth)
@@ -186,7 +210,7 @@ pub fn check(tier: &str) -> i32 {
     rep.set("batch", json!({"packages": res.packages, "cache_hits": res.cache_hits, "build_s": res.build_secs}));
     rep.set("max_depth", json!(if tier == "thorough" { 2 } else { 1 }));
     rep.set("exhaustive", json!(true));
-    rep.set("bound", json!("XSD seed x {reduced member productions, every builtin as element+attribute, 12 names (6 styles + 6 keywords) x 5 naming positions, 6 multi-file import graphs (3-4 files: chain, diamond, cycle, mutual, self)}; WSDL seed x {operation name styles, input-only, 1-3 header parts per direction, explicit parts, no soapAction, part named as element, elements in an imported namespace, 2-3 operations, service name styles, addresses}; kitchen-sink documents; thorough: all pairs of WSDL productions and the depth-2 member pairs of C02"));
+    rep.set("bound", json!("XSD seed x {reduced member productions, every builtin as element+attribute, 12 names (6 styles + 6 keywords) x 8 naming positions (5 XSD, WSDL operation, message part, service), 7 multi-file import graphs (3-4 files: chain, diamond, cycle, mutual, self, colliding abbreviations with component-level prefixes)}; WSDL seed x {operation name styles, input-only, 1-3 header parts per direction, explicit parts, no soapAction, part named as element, elements in an imported namespace, 2-3 operations, service name styles, addresses}; a global element and a type sharing one name in one namespace (3 variants x declaration order); kitchen-sink documents; thorough: all pairs of WSDL productions and the depth-2 member pairs of C02"));
     rep.assume("rustc 1.95 and the six crates at the versions of /repo/Cargo.lock; the package manifest lists exactly those six, so a reference to zeep or any other crate cannot resolve");
     rep.assume("compile results are memoised per package on a hash of all package sources (pure function of the text); zeep itself is always re-run");
     rep.finish()
